@@ -60,6 +60,9 @@ func linRun(args []string) error {
 			sink.Emit(ev)
 		}
 	}
+	if hangs == 0 {
+		sink.Emit(lindrv.RunHookOrder())
+	}
 	dels := 0
 	if hangs == 0 {
 		for i, mode := range []string{"nh", "nhg"} {
